@@ -39,3 +39,48 @@ def pps_segments(cost, seg, last=None):
 
 def response_times(jobs, done, task):
     return [done[k] - jobs[k]["arr"] if done[k] is not None else None for k in range(len(jobs)) if jobs[k]["task"] == task]
+
+# ----------------------------------------------------------------------------- ROS 2 single-threaded executor
+def worst_supply(Q, D, P, horizon):
+    """budget as early as possible in period 0, as late as the deadline allows afterwards (Spec worst_sigma)"""
+    s = []
+    for t in range(horizon):
+        if t < P: s.append(t < Q)
+        else:
+            r = t % P; s.append(D - Q <= r < D)
+    return s
+
+def executor(callbacks, chains, releases, supply, horizon):
+    """callbacks: list of dict(kind='timer'|'polled', prio, cost) (index = id; smaller prio = higher priority);
+    chains: dict cb -> next cb triggered at completion; releases: list of (time, cb) external arrivals;
+    supply: list of bool per slot.  Returns list of (cb, arrival, completion, chain_source_arrival)."""
+    pending = {i: [] for i in range(len(callbacks))}      # cb -> list of (arrival, source_arrival), FIFO
+    rel = sorted(releases)
+    ri = 0
+    ready = []                                              # polled callbacks admitted at the last polling point
+    running = None                                          # (cb, remaining, arrival, src)
+    done = []
+    for t in range(horizon):
+        while ri < len(rel) and rel[ri][0] <= t:
+            pending[rel[ri][1]].append((rel[ri][0], rel[ri][0])); ri += 1
+        if not supply[t]: continue
+        if running is None:
+            timers = [i for i, c in enumerate(callbacks) if c["kind"] == "timer" and pending[i]]
+            pick = None
+            if timers: pick = min(timers, key=lambda i: callbacks[i]["prio"])
+            else:
+                if not ready:
+                    ready = [i for i, c in enumerate(callbacks) if c["kind"] == "polled" and pending[i]]      # polling point
+                if ready:
+                    pick = min(ready, key=lambda i: callbacks[i]["prio"]); ready.remove(pick)
+            if pick is not None:
+                a, src = pending[pick].pop(0)
+                running = [pick, callbacks[pick]["cost"], a, src]
+        if running is not None:
+            running[1] -= 1
+            if running[1] == 0:
+                cb, _, a, src = running
+                done.append((cb, a, t + 1, src))
+                if cb in chains: pending[chains[cb]].append((t + 1, src))
+                running = None
+    return done
